@@ -31,10 +31,10 @@ func main() { wk.Main("C14", run) }
 func run(c *wk.Ctx) {
 	go inspector(c)
 	nseq := c.Pick(240, 4000)
-	nconc := c.Pick(192, 2400)
+	nconc := c.Pick(256, 2400)
 	if c.Race {
 		nseq = 0
-		nconc = c.Pick(48, 400)
+		nconc = c.Pick(64, 480)
 	}
 	for i := 0; i < nseq; i++ {
 		if c.Mine(i) {
